@@ -67,8 +67,12 @@ def schedule(r):
                 in_time.append((k, "E"))
             (in_time if f["norm_in"] else late).extend(normal)
         else:
-            # latency around the timeout: what was in time is read off the observation
-            if last and r["class"] == "ok":
+            # latency around the timeout / the cancellation: what was in time is read off the observation (the delivered
+            # response, or a response the requester's onResponse accepted into this attempt's channel)
+            acc = r.get("accepted") or []
+            if (last and r["class"] == "ok") or (have_stats(r) and k <= len(acc) and acc[k - 1] >= 1):
+                if f["early"]:
+                    in_time.append((k, "E"))
                 in_time.extend(normal)
             else:
                 late.extend(normal)
@@ -81,15 +85,27 @@ def schedule(r):
         got = any(x[0] == k for x in in_time)
         for rid, kind in in_time:
             evs += arrive(rid, k, kind)
-        if got:
+        if plan["cancel"] > 0 and last and r["class"] == "cancelled":
+            evs += ["Cancel 1", "SelCancel %d" % k, "Dereg %d" % k]
+        elif got:
             evs += ["SelRecv %d" % k, "Dereg %d" % k]
-        elif plan["cancel"] > 0 and k == 1:
+        elif plan["cancel"] > 0 and k == 1 and strict:
             evs += ["Cancel 1", "SelCancel %d" % k, "Dereg %d" % k]
         else:
             evs += ["Fire %d" % k, "SelTimeout %d" % k, "Dereg %d" % k]
         for rid, kind in late:
             evs += arrive(rid, k, kind)
     return evs
+
+
+def have_stats(r):
+    """The per-attempt acceptance statistics are usable: one entry per attempt and the delivered response was seen."""
+    acc, seen = r.get("accepted"), r.get("seen")
+    if acc is None or seen is None or len(acc) != r["attempts"] or len(seen) != r["attempts"]:
+        return False
+    if r["class"] == "ok" and r["attempts"] >= 1 and seen[-1] < 1:
+        return False  # the logger did not recognise the messages (log texts changed?)
+    return True
 
 
 def call_term(r):
@@ -99,13 +115,15 @@ def call_term(r):
         pl.append("(mkPlan %s %s %d %s)" % (cbool(f["in_time"]), cbool(f["early"]), f["dups"], cbool(f["norm_in"])))
     mine = 1 if r["pay_call"] == r["plan"]["call"] else 0
     o = "(%d, %d, %d, %d, %d)" % (CLS.get(r["class"], 3), r["pay_att"], KIND.get(r["pay_kind"], 0), r["attempts"], mine)
-    return "([%s], %s, %s, %s, [%s])" % ("; ".join(pl), cbool(r["plan"]["cancel"] > 0), cbool(r["plan"]["strict"]), o,
-                                         "; ".join(schedule(r)))
+    hs = have_stats(r)
+    stats = "(%s, [%s])" % (cbool(hs), "; ".join(str(max(0, a)) for a in (r.get("accepted") or [])) if hs else "")
+    return "([%s], %s, %s, %s, %s, [%s])" % ("; ".join(pl), cbool(r["plan"]["cancel"] > 0), cbool(r["plan"]["strict"]), o, stats,
+                                             "; ".join(schedule(r)))
 
 
 def shape(r):
     p = r["plan"]
-    return (p["strict"], r["class"], r["pay_kind"], r["attempts"], p["cancel"] > 0,
+    return (p["strict"], r["class"], r["pay_kind"], r["attempts"], p["cancel"] > 0, tuple(min(a, 1) for a in (r.get("accepted") or [])),
             tuple((a["lat"] >= r["timeout_ms"], a["early"], min(a["dups"], 1), a["wrong"]) for a in p["attempts"][:max(1, r["attempts"])]))
 
 
@@ -133,9 +151,10 @@ def evaluate(ck, recs, tag="calls", count=True):
 def report(ck, bad, badb):
     for r, code in bad:
         spec_bad = code >= 2 or bool(r.get("panic"))
-        what = ("request() call %s: plan %s, observed class=%s attempts=%d delivered=(attempt %d, kind %s)%s" % (
+        what = ("request() call %s: plan %s, observed class=%s attempts=%d delivered=(call %d, attempt %d, kind %s) "
+                "responses accepted per attempt=%s%s" % (
             "violates the request/response oracle" if spec_bad else "differs from the proved model",
-            json.dumps(r["plan"]), r["class"], r["attempts"], r["pay_att"], r["pay_kind"] or "-",
+            json.dumps(r["plan"]), r["class"], r["attempts"], r["pay_call"], r["pay_att"], r["pay_kind"] or "-", r.get("accepted"),
             (" panic=" + r["panic"]) if r.get("panic") else ""))
         cls = "panic" if r.get("panic") else ("%s-%s" % ("strict" if r["plan"]["strict"] else "race", r["class"]))
         f = dict(kind="input", key="c17:call:%s:%s" % ("spec" if spec_bad else "model", cls), what=what, case=r,
@@ -198,9 +217,10 @@ def run(ck):
         bad, badb = confirm(ck, binp, recs, bad, badb)
         report(ck, bad, badb)
     if ck.tier == "quick":
-        args = ["-det", "40", "-rounds", "2", "-race", "30", "-racecalls", "16"]
+        args = ["-det", "40", "-rounds", "2", "-race", "20", "-racecalls", "16", "-held", "3", "-deadline", "8", "-cancelrace", "6"]
     else:
-        args = ["-det", "80", "-rounds", "6", "-race", "300", "-racecalls", "24"]
+        args = ["-det", "80", "-rounds", "6", "-race", "200", "-racecalls", "24", "-held", "12", "-deadline", "60", "-dlcalls", "96",
+                "-cancelrace", "40"]
     recs = ck.run_harness(binp, args)
     if recs is None:
         return
